@@ -86,7 +86,7 @@ DICTS = [
     [('ab', 'Z'), ('a', 'X'), ('b', 'Y')], [('a', 'a')], [('ba', 'ab'), ('ab', 'ba')], [],
 ]
 
-ATOMS = ['a', 'b', '.', '(a)', '(?P<x>b)', 'a*', '(a|b)', '^', '$']
+ATOMS = ['a', 'b', '.', '(a)', '(?P<x>b)', 'a*', '(a|b)', '^', '$', '(b)?', '((a)b)']   # optional group: may not participate; nested groups
 FLAGSETS = list(itertools.product([False, True], repeat=3))      # (ignoreCase, multiLine, dotAll)
 RX_SAMPLES = ['A', 'aB', 'Ab\n', 'B\nA', '\xe9', 'a\xe9b', ' a ', 'abab', 'baab', 'a\nb\n', 'aaaa',
               '\U0001f600a', 'AB\nab', '\n\nb', 'bbab']
